@@ -705,3 +705,194 @@ theorem recSize_pos (T : TimeOps τ) (dt dur : τ) (incl : Bool) : 1 ≤ recSize
   unfold recSize; omega
 
 end InfernoVerif.Record
+
+namespace InfernoVerif.Record
+open InfernoVerif.Ring InfernoVerif.Shaped
+variable {α β τ : Type}
+
+theorem applyM_fields (s : MState τ) (D : Decision) :
+    (applyM s D).1.dt = s.dt ∧ (applyM s D).1.dur = s.dur ∧ (applyM s D).1.incl = s.incl := by
+  cases D with
+  | err e => exact ⟨rfl, rfl, rfl⟩
+  | set c => exact ⟨rfl, rfl, rfl⟩
+  | setErr c e => exact ⟨rfl, rfl, rfl⟩
+  | resize c t size =>
+    unfold applyM
+    cases s.store with
+    | none => exact ⟨rfl, rfl, rfl⟩
+    | empty => exact ⟨rfl, rfl, rfl⟩
+    | uninit => exact ⟨rfl, rfl, rfl⟩
+    | init sh d =>
+      obtain ⟨p, rows⟩ := d
+      simp only
+      split <;> exact ⟨rfl, rfl, rfl⟩
+
+theorem align0_fields (s : MState τ) :
+    (align0 s).dt = s.dt ∧ (align0 s).dur = s.dur ∧ (align0 s).incl = s.incl ∧
+    (align0 s).cons = s.cons ∧ (align0 s).strict = s.strict := by
+  unfold align0
+  cases s.store with
+  | none => exact ⟨rfl, rfl, rfl, rfl, rfl⟩
+  | empty => exact ⟨rfl, rfl, rfl, rfl, rfl⟩
+  | uninit => exact ⟨rfl, rfl, rfl, rfl, rfl⟩
+  | init sh d => obtain ⟨p, rows⟩ := d; exact ⟨rfl, rfl, rfl, rfl, rfl⟩
+
+/-- a decision taken for a raw dim other than 0 never touches the record-dimension constraint -/
+theorem apply_lookup0 (s : MState τ) (c : Cons) (strict : Bool) (sh? : Option (List Nat)) (rawdim : Int)
+    (size : Option Int) (hc : c = s.cons) (hne : rawdim ≠ 0) :
+    (applyM s (reconDecide c strict sh? rawdim size)).1.cons.lookup 0 = s.cons.lookup 0 := by
+  subst hc
+  cases hD : reconDecide s.cons strict sh? rawdim size with
+  | err e => rfl
+  | setErr c' e =>
+    obtain ⟨_, e2⟩ := decide_setErr hD
+    subst e2; exact lookup_del_ne _ _ (Ne.symm hne)
+  | set c' =>
+    rcases decide_set hD with ⟨z, _, _, e2, _⟩ | ⟨_, e2⟩
+    · subst e2; exact lookup_put_ne _ _ _ (Ne.symm hne)
+    · subst e2; exact lookup_del_ne _ _ (Ne.symm hne)
+  | resize c' t sz =>
+    obtain ⟨z, shp, _, _, _, e3, _⟩ := decide_resize hD
+    subst e3
+    unfold applyM
+    cases s.store with
+    | none => rfl
+    | empty => rfl
+    | uninit => rfl
+    | init sh d =>
+      obtain ⟨p, rows⟩ := d
+      simp only
+      split <;> exact lookup_put_ne _ _ _ (Ne.symm hne)
+
+/-- a decision for raw dim 0 with a requested size, when it does not raise, installs that size -/
+theorem apply_lookup0_set (s : MState τ) (c : Cons) (strict : Bool) (sh? : Option (List Nat)) (size : Nat)
+    (hu : (applyM s (reconDecide c strict sh? 0 (some (size : Int)))).2 = .unit) :
+    (applyM s (reconDecide c strict sh? 0 (some (size : Int)))).1.cons.lookup 0 = some size := by
+  cases hD : reconDecide c strict sh? 0 (some (size : Int)) with
+  | err e => rw [hD] at hu; simp [applyM] at hu
+  | setErr c' e => rw [hD] at hu; simp [applyM] at hu
+  | set c' =>
+    rcases decide_set hD with ⟨z, e1, _, e2, _⟩ | ⟨e1, _⟩
+    · cases e1; subst e2; simp only [applyM, Int.toNat_natCast]; exact lookup_put_self _ _ _
+    · cases e1
+  | resize c' t sz =>
+    obtain ⟨z, shp, e1, _, e2, e3, _⟩ := decide_resize hD
+    cases e1
+    simp only [Int.toNat_natCast] at e2
+    subst e2 e3
+    rw [hD] at hu
+    unfold applyM at hu ⊢
+    cases hs : s.store with
+    | none => rw [hs] at hu; simp at hu
+    | empty => rw [hs] at hu; simp at hu
+    | uninit => rw [hs] at hu; simp at hu
+    | init sh d =>
+      obtain ⟨p, rows⟩ := d
+      simp only
+      split <;> exact lookup_put_self _ _ _
+
+theorem resizeTo_unit (s : MState τ) (size : Nat) (hu : (resizeToM s size).2 = .unit) :
+    (resizeToM s size).1.cons.lookup 0 = some size ∧ (resizeToM s size).1.dt = s.dt ∧
+    (resizeToM s size).1.dur = s.dur ∧ (resizeToM s size).1.incl = s.incl := by
+  unfold resizeToM at hu ⊢
+  cases hl : s.cons.lookup 0 with
+  | none => rw [hl] at hu; simp at hu
+  | some n =>
+    rw [hl] at hu
+    simp only at hu ⊢
+    by_cases he : size = n
+    · simp only [he, if_true]
+      refine ⟨?_, ?_, ?_, ?_⟩
+      all_goals first | exact hl | rfl | trivial
+    · simp only [he, if_false] at hu ⊢
+      obtain ⟨a1, a2, a3, a4, a5⟩ := align0_fields s
+      unfold shapedReconM at hu ⊢
+      obtain ⟨b1, b2, b3⟩ := applyM_fields (align0 s)
+        (reconDecide (align0 s).cons (align0 s).strict (mShape? (align0 s).store) 0 (some (size : Int)))
+      exact ⟨apply_lookup0_set _ _ _ _ _ hu, by rw [b1, a1], by rw [b2, a2], by rw [b3, a3]⟩
+
+/-- operations other than the temporal setters leave dt, duration, inclusive and the record
+dimension's constraint alone, whatever they return -/
+theorem nonsetter_keeps (T : TimeOps τ) (s : MState τ) (op : Op τ) (h : op.isSetter = false) :
+    (step T s op).1.cons.lookup 0 = s.cons.lookup 0 ∧ (step T s op).1.dt = s.dt ∧
+    (step T s op).1.dur = s.dur ∧ (step T s op).1.incl = s.incl := by
+  cases op with
+  | setDt v => simp [Op.isSetter] at h
+  | setDur v => simp [Op.isSetter] at h
+  | setIncl b => simp [Op.isSetter] at h
+  | recon dim size =>
+    simp only [step]
+    obtain ⟨a1, a2, a3, a4, a5⟩ := align0_fields s
+    unfold shapedReconM
+    obtain ⟨b1, b2, b3⟩ := applyM_fields (align0 s)
+      (reconDecide (align0 s).cons (align0 s).strict (mShape? (align0 s).store)
+        (if 0 ≤ dim then dim + 1 else dim) size)
+    refine ⟨?_, by rw [b1, a1], by rw [b2, a2], by rw [b3, a3]⟩
+    rw [apply_lookup0 (align0 s) _ _ _ _ _ rfl (by split <;> omega), a4]
+  | push xsh x b =>
+    simp only [step]
+    cases hl : s.cons.lookup 0 with
+    | none => exact ⟨hl, rfl, rfl, rfl⟩
+    | some n =>
+      simp only
+      cases s.store with
+      | init sh d =>
+        obtain ⟨p, rows⟩ := d
+        simp only
+        split <;> exact ⟨hl, rfl, rfl, rfl⟩
+      | none => exact ⟨hl, rfl, rfl, rfl⟩
+      | empty => exact ⟨hl, rfl, rfl, rfl⟩
+      | uninit => exact ⟨hl, rfl, rfl, rfl⟩
+  | assign k =>
+    cases k <;> simp only [step] <;> (try split) <;>
+      (refine ⟨?_, ?_, ?_, ?_⟩ <;> first | rfl | trivial)
+  | initz sh =>
+    simp only [step]
+    cases hl : s.cons.lookup 0 <;> exact ⟨hl, rfl, rfl, rfl⟩
+
+end InfernoVerif.Record
+
+namespace InfernoVerif.Record
+open InfernoVerif.Ring InfernoVerif.Shaped
+variable {α β τ : Type}
+
+theorem specResize_self (h : List α) (z : α) : specResize h h.length z = h := by
+  unfold specResize; simp
+
+/-- specification machine: a setter's common tail that returns turns an `n`-slot history into
+its truncation / zero-padding to the new size. -/
+theorem resizeToS_store (s : SState τ) (sh : List Nat) (h : List Row) (hs : s.store = .init sh h)
+    (hn : s.cons.lookup 0 = some h.length) (size : Nat)
+    (hu : (resizeToS s size).2 = .unit) :
+    (resizeToS s size).1.store = .init sh (specResize h size (zeroRow sh)) := by
+  unfold resizeToS at hu ⊢
+  rw [hn] at hu ⊢
+  simp only at hu ⊢
+  by_cases he : size = h.length
+  · simp only [he, if_true]; rw [hs, specResize_self]
+  · simp only [he, if_false] at hu ⊢
+    unfold shapedReconS at hu ⊢
+    have hshape : sShape? s.store = some (h.length :: sh) := by rw [hs]; rfl
+    rw [hshape] at hu ⊢
+    cases hD : reconDecide s.cons s.strict (some (h.length :: sh)) 0 (some (size : Int)) with
+    | err e => rw [hD] at hu; simp [applyS] at hu
+    | setErr c' e => rw [hD] at hu; simp [applyS] at hu
+    | set c' =>
+      rcases decide_set hD with ⟨z, e1, _, e2, hc⟩ | ⟨e1, _⟩
+      · cases e1
+        subst e2
+        have := met_zero (compatible_met (hc _ rfl) (mem_put_self s.cons 0 (size : Int).toNat))
+        simp at this
+        omega
+      · cases e1
+    | resize c' t sz =>
+      obtain ⟨z, shp, e1, _, e2, e3, e4, e5, _⟩ := decide_resize hD
+      cases e1; cases e4
+      simp only [Int.toNat_natCast] at e2
+      subst e2
+      rw [pyIdx_zero (by simp)] at e5
+      cases e5
+      simp only [applyS, hs, if_true]
+
+
+end InfernoVerif.Record
